@@ -18,7 +18,8 @@
 (*         map   deriveDeepCopy(dst, src T),  T a map, dst empty (j = 1)   *)
 (*         clone deriveClone(src T)           (j = 1, "d" = the result)    *)
 (*   V is the value JSON of engs with labels = real addresses (slices also *)
-(*   carry "off"); st = "ok" | "panic" (then only "pre" is present).       *)
+(*   carry "off"); st = "ok" | "panic" | "corrupt" (reading source or      *)
+(*   result after the call faults); then only "pre" is present.            *)
 (*                                                                         *)
 (* Every line is consumed; what CopyOK / write independence do not allow   *)
 (* is recorded in bad (one record per case x form x law x difference       *)
@@ -85,6 +86,7 @@ CopyRecs ==
   IF ~(WF1(Ev.pre.s) /\ WF1(Ev.pre.d)) THEN Bad1("MALFORMED: ill-shaped pre-state")
   ELSE IF ~(Same(Ev.pre.s, s0) /\ Same(Ev.pre.d, d0) /\ PriorOK(Ev.pre.s, Ev.pre.d))
   THEN Bad1("MALFORMED: pre-state is not the case's source and a tree-shaped, disjoint prior destination")
+  ELSE IF Ev.st = "corrupt" THEN {R("a value cannot be read after the call (corrupt memory)", {})}
   ELSE IF Ev.st # "ok" THEN {R("the call panicked", {})}
   ELSE IF ~(WF1(Ev.post.s) /\ WF1(Ev.post.d) /\ WF1(Ev.sw) /\ WF1(Ev.dw))
   THEN {R("a value after the call is ill-shaped or holds a leaf outside the table", {})}
